@@ -501,7 +501,7 @@ def run(prop, tier, rng, res, batch, dfs):
         return None
     runs = []
     cfgs = DFS_QUICK if tier == "quick" else DFS_THOROUGH
-    budget = 250 if tier == "quick" else 3000
+    budget = 400 if tier == "quick" else 3000
     bound = 2 if tier == "quick" else 3
     dfs_total, dfs_complete = 0, True
     for cfg in cfgs:
@@ -509,7 +509,7 @@ def run(prop, tier, rng, res, batch, dfs):
         runs += rs
         dfs_total += len(rs)
         dfs_complete = dfs_complete and complete
-    nrand = 2500 if tier == "quick" else 30000
+    nrand = 4000 if tier == "quick" else 30000
     lines = []
     for i in range(nrand):
         lines.append("run %s seed %d pts" % (gen_cfg(rng, tier), rng.next() % (1 << 40)))
